@@ -37,14 +37,19 @@ type fedConfig struct {
 	Mode    string // default | explicit | computed
 	// MayNotGenerate: gqlgen documents that this combination is rejected by the generator.
 	MayNotGenerate bool
+	// Reduced: the generated federation.go is byte-identical to the v2 configuration of the
+	// same mode (checked at run time), so the thorough tier explores it with the reduced plan.
+	Reduced bool
 }
+
+func (fc fedConfig) plan(tier string) []c20.LenPlan { return c20.DefaultPlan(tier, !fc.Reduced) }
 
 var (
 	v2def = fedConfig{Name: "v2-default", Version: 2, Mode: "default"}
 	v2exp = fedConfig{Name: "v2-explicit_requires", Version: 2, Mode: "explicit"}
 	v2com = fedConfig{Name: "v2-computed_requires", Version: 2, Mode: "computed"}
-	v1def = fedConfig{Name: "v1-default", Version: 1, Mode: "default"}
-	v1exp = fedConfig{Name: "v1-explicit_requires", Version: 1, Mode: "explicit"}
+	v1def = fedConfig{Name: "v1-default", Version: 1, Mode: "default", Reduced: true}
+	v1exp = fedConfig{Name: "v1-explicit_requires", Version: 1, Mode: "explicit", Reduced: true}
 	v1com = fedConfig{Name: "v1-computed_requires", Version: 1, Mode: "computed", MayNotGenerate: true}
 )
 
@@ -179,7 +184,7 @@ func runShards(b built, tier string, deadline time.Time) c20.ShardResult {
 		go func(i int) {
 			defer wg.Done()
 			cmd := exec.Command(b.Bin, "--tier", tier, "--shard", fmt.Sprintf("%d/%d", i, n), "--deadline", strconv.FormatInt(deadline.Unix(), 10))
-			cmd.Env = append(os.Environ(), "GOMAXPROCS=2", "VERIF_FED_MODE="+b.Cfg.Mode, "VERIF_CONFIG="+b.Cfg.Name)
+			cmd.Env = append(os.Environ(), "GOMAXPROCS=2", "VERIF_FED_MODE="+b.Cfg.Mode, "VERIF_CONFIG="+b.Cfg.Name, "VERIF_C20_PLAN="+c20.Encode(b.Cfg.plan(tier)))
 			cmd.Stderr = os.Stderr
 			out, _ := cmd.StdoutPipe()
 			if err := cmd.Start(); err != nil {
@@ -293,6 +298,24 @@ func main() {
 			run = append(run, b)
 		}
 	}
+	// a Reduced configuration must really have the same generated federation code as the v2
+	// configuration of its mode; otherwise it gets the full plan
+	for i := range run {
+		if !run[i].Cfg.Reduced {
+			continue
+		}
+		same := false
+		for _, o := range run {
+			if o.Cfg.Version == 2 && o.Cfg.Mode == run[i].Cfg.Mode {
+				a, e1 := os.ReadFile(filepath.Join(run[i].Dir, "graph", "federation.go"))
+				b, e2 := os.ReadFile(filepath.Join(o.Dir, "graph", "federation.go"))
+				same = e1 == nil && e2 == nil && string(a) == string(b)
+			}
+		}
+		if !same {
+			run[i].Cfg.Reduced = false
+		}
+	}
 	buildS := time.Since(start).Seconds()
 	if os.Getenv("VERIF_C20_KEEP") != "" { // development aid: keep the built harnesses
 		for _, b := range run {
@@ -339,7 +362,7 @@ func main() {
 			v := r.PerLen[k]
 			perLen[strconv.Itoa(k)] = map[string]int64{"scenarios": v[0], "scenarios_completed": v[2], "executions": v[1]}
 		}
-		per = append(per, map[string]any{"config": b.Cfg.Name, "scenarios": r.Scenarios, "scenarios_completed": r.Completed, "executions": r.Execs,
+		per = append(per, map[string]any{"config": b.Cfg.Name, "plan_per_list_length": c20.Describe(b.Cfg.plan(tier)), "scenarios": r.Scenarios, "scenarios_completed": r.Completed, "executions": r.Execs,
 			"by_list_length": perLen, "signatures": r.SigCounts, "exhaustive": r.Exhaustive})
 		for _, f := range r.Found {
 			cs, _ := json.Marshal(f.Meta)
@@ -368,7 +391,7 @@ func main() {
 	for _, l := range c20.Alphabet {
 		names = append(names, l.Name+"="+l.JSON)
 	}
-	c.Cov["bounds"] = map[string]any{"plan_per_list_length": c20.Describe(c20.PlanFor(tier)), "alphabet": names, "fault_kinds": []string{"error", "panic", "nil"},
+	c.Cov["bounds"] = map[string]any{"alphabet": names, "fault_kinds": []string{"error", "panic", "nil"},
 		"max_steps": 20000, "max_deviations_seen": maxCost, "max_steps_seen": maxStepsSeen, "configurations": len(run)}
 	c.Cov["per_config"] = per
 	c.Cov["configs_rejected_by_generator"] = notGenerated
